@@ -71,9 +71,13 @@ type Succ struct {
 
 // Res is a worker's answer.
 type Res struct {
-	Succ []Succ `json:"succ"`
-	Err  string `json:"err,omitempty"`
+	Succ     []Succ         `json:"succ"`
+	Err      string         `json:"err,omitempty"`
+	Counters map[string]int `json:"counters,omitempty"`
 }
+
+// Counters are property-specific counts a worker accumulates while expanding one job (summed by the coordinator).
+var Counters = map[string]int{}
 
 // Registry of scopes, filled by the checks' init code: name -> tier -> instances.
 var Registry = map[string]func(tier string) []*Scope{}
@@ -360,7 +364,9 @@ func ServeWorker() {
 			b, _ := json.Marshal(Res{Err: err.Error()})
 			return b
 		}
+		Counters = map[string]int{}
 		r := Expand(j)
+		r.Counters = Counters
 		b, _ := json.Marshal(r)
 		return b
 	})
@@ -391,6 +397,7 @@ type Stats struct {
 	Exhaustive  bool
 	Capped      string
 	Known       map[string]int
+	Counters    map[string]int
 }
 
 // Classify decides what to do with a failing transition: "" = violation, otherwise the known-finding id.
@@ -399,7 +406,7 @@ type Classify func(v *Violation) string
 // Explore runs the BFS for all instances of a scope. onViolation is called for failures not classified as known.
 func Explore(pool *par.Pool, name, tier string, deadline time.Time, classify Classify, onViolation func(*Violation)) *Stats {
 	scs := scopes(name, tier)
-	st := &Stats{Obs: map[string]int{}, Known: map[string]int{}, Exhaustive: true}
+	st := &Stats{Obs: map[string]int{}, Known: map[string]int{}, Exhaustive: true, Counters: map[string]int{}}
 	seen := make([]map[string]bool, len(scs))
 	type node struct {
 		idx  int
@@ -458,6 +465,9 @@ func Explore(pool *par.Pool, name, tier string, deadline time.Time, classify Cla
 				continue
 			}
 			n := frontier[i]
+			for k, v := range res.Counters {
+				st.Counters[k] += v
+			}
 			if res.Err != "" {
 				st.Errors = append(st.Errors, fmt.Sprintf("%s: %s", apix.ProgString(n.prog), res.Err))
 				continue
